@@ -79,9 +79,9 @@ func c10Scenarios(rng *kit.Rng, thorough bool) []c10Scenario {
 		out = append(out, c10Scenario{ID: len(out), Browser: b, Name: n, Enc: e, NumConn: nc, Unordered: un, Pattern: p,
 			Seed: int64(rng.Uint64() >> 1)})
 	}
-	rounds := 1
+	rounds := 2
 	if thorough {
-		rounds = 6
+		rounds = 40
 	}
 	for round := 0; round < rounds; round++ {
 		k := rng.Intn(1000)
@@ -90,9 +90,6 @@ func c10Scenarios(rng *kit.Rng, thorough bool) []c10Scenario {
 				for _, e := range c10Encs {
 					for _, nc := range c10NumConns {
 						k++
-						if !thorough && p != "small" && p != "multiframe" && (k%3) != 0 {
-							continue // quick: every pattern with a third of the (browser, method, conns) cells, two patterns with all
-						}
 						add(b, c10Names[k%len(c10Names)], e, nc, false, p)
 					}
 				}
